@@ -61,6 +61,7 @@ def correspond(ctx, sc, im, mo):
     if isinstance(im, dict) and 'exception' in im:
         ctx.fail('scenario-runs-without-unexpected-exception', sc, im)
         return False
+    store.judge_routes(ctx, sc, im)
     if mo is None:
         return True
     for k, (op, oi, om) in enumerate(zip(sc['ops'], im, mo)):
